@@ -35,10 +35,10 @@ CLAIMED = {
     "C03": ("All reason-code tables against the specification tables for every byte value; decode_vli for all inputs of 0..5 bytes; the framing state machine as per-state step lemmas "
             "from an arbitrary decoder state (type byte; remaining length with 0..3 buffered continuation bytes incl. rejection of a fourth one for every chunking and rejection of an "
             "oversize announcement before any body byte is buffered, for any maximum; body accumulation for concrete small lengths with symbolic contents, the body decoder seeing exactly "
-            "the frame once); the driver loop on every 3-byte stream fed whole vs split at every point (same frames, verdict and resumable state); the error state is absorbing.",
-            "Outside the claim: the fifteen body decoders behind decode_packet (replaced by a deterministic recorder in the framing harnesses; the MQTT5 body decoders did not reach a "
-            "verdict within 20 min in the probes), streams longer than 4 bytes in the whole-loop harness (longer streams follow by induction over the step lemmas, an argument on paper), "
-            "bodies longer than 4 bytes.", "5 C03", TECH),
+            "the frame once); the bounds-checked primitive readers (binary, string, u16/u32/bool properties) on 0..6 hostile bytes incl. duplicates; a new connection always starts from a fresh decoder; the error state is absorbing.",
+            "Outside the claim: the fifteen body decoders behind decode_packet (replaced by a deterministic recorder in the framing harnesses; the MQTT5 body decoders reach no verdict within 30 min, the 3.1.1 CONNACK decoder is a "
+            "thorough-tier harness), therefore 'decoded to exactly that content'; the driver loop decode_bytes as a whole (stretch harnesses on 2-4 byte streams reach no verdict: chunking invariance rests on the per-state step lemmas "
+            "plus an induction argument on paper); bodies longer than 4 bytes.", "5 C03", TECH),
     "C04": ("Mechanism level: a first transmission is rejected by validation unless DUP=0 and no id; at disconnection every in-flight QoS1/2 publish (awaiting PUBACK/PUBREC, PUBREL queued "
             "or half encoded, retransmission half encoded, also on a resumed connection) ends exactly once in the retransmission queue with DUP=1, the same id and reservation and its "
             "PUBREL slot, whatever the policy, never failed; session present keeps it unchanged; session absent restarts it as a fresh publish (DUP=0, no id, PUBREL forgotten) or fails it "
@@ -78,8 +78,8 @@ CLAIMED = {
             "request carrying a DISCONNECT is still pursued when it arrives during the CONNECT/CONNACK handshake.",
             "Engine entry point and listener broadcast are replaced by recorders. Outside the claim (and the larger part of the property): the tokio and threaded event loops that call these functions, every multi-transition history "
             "('exactly one outcome before the next attempt' over a whole run, 'the loop never dies'), timing ('in bounded time once the transport reacts'), thread/task interleavings.", "5 C12", TECH),
-    "C13": ("WebSocket adapter only: MessageCursor::read for every message length 0..6, cursor position and destination length 0..4 copies the next bytes in order and advances exactly; thorough tier: WebsocketStreamWrapper::read over "
-            "two back-to-back messages with tungstenite's read stubbed by its contract.",
+    "C13": ("WebSocket adapter only: MessageCursor::read for every message length 0..6, cursor position and destination length 0..4 copies the next bytes in order and advances exactly; successive reads deliver a message larger than the "
+            "buffer in order without repetition; WebsocketStreamWrapper::read over two back-to-back messages and over a message larger than the buffer, with tungstenite's read stubbed by its contract.",
             "Outside the claim (declined): the tokio and threaded event loops, partial-write cursors, thread/task interleavings of submit/close, result delivery through channels -- Kani models neither threads nor the async runtime.", "5 C13", TECH),
     "C14": ("service_keep_alive for every K in 1..65535, any ping timeout and clock: PINGREQ at the front, deadline = now + min(ping timeout, K/2 exactly), next ping K s later; failure exactly at (never before) the deadline; no second ping while "
             "one is outstanding; PINGRESP clears the deadline only when one is outstanding in a live state; next-ping extension = max(old, transmission + K) for acknowledged kinds only; K = 0 schedules nothing; PINGREQ wire bytes; one SMT lemma "
